@@ -9,7 +9,7 @@ PIN = {}
 use_fakepd()
 FUNCTIONS = [Task.do_work, Task.calculate_runtime, Task.update_allocation, Cluster.allocate_task_to_cluster, Cluster.finished_task_time_data]
 META = {
-    'bounds': {'C06.H1': 'flops 0..12, data 0..6, cpu 1..3, bw 1..2, injected delay 0..2 (values enumerated by branching)'},
+    'bounds': {'C06.H1': 'flops 0..12, data 0..6, cpu 1..3 and 1.5, 2.5, bw 1..2, injected delay 0..2 (values enumerated by branching)'},
     'outside_bounds': [], 'stubs': ['E4 pandas stub for the task table'], 'assumptions': [],
 }
 
@@ -26,13 +26,15 @@ class _Extra(DelayModel):
 def e2e_tag(flops, data, cpu, bw, extra):
     wit.begin()
     flops, data = wit.concretize(flops, 0, 12), wit.concretize(data, 0, 6)
-    cpu, bw, extra = wit.concretize(cpu, 1, 3), wit.concretize(bw, 1, 2), wit.concretize(extra, 0, 2)
+    # a machine speed that is not a whole number per timestep (Config divides by the unit) is given as a constant (2.5, 1.5: exact in binary)
+    cpu = cpu if isinstance(cpu, float) else wit.concretize(cpu, 1, 3)
+    bw, extra = wit.concretize(bw, 1, 2), wit.concretize(extra, 0, 2)
     env, c = new_cluster(2, [cpu, cpu], [bw, bw])
     env.run(until=2)
     t = Task('A_0_0', 0, 0, 'm0', [], flops, data, {}, _Extra(extra))
     m = c.machines[0]
     env.process(c.allocate_task_to_cluster(t, m, None, None))
-    nom = max(flops // cpu, data // bw) if (flops > 0 or data > 0) else 0
+    nom = max(int(flops // cpu), data // bw) if (flops > 0 or data > 0) else 0
     want_lo, want_hi = max(1, nom + extra), max(1, nom) + extra
     released = None
     for k in range(30):
@@ -121,6 +123,7 @@ def warmup():
 
 def shards(tier, prop):
     out = [{'fn': 'e2e_s', 'pin': {'cpu': c, 'bw': b}, 'cond_timeout': 240, 'path_timeout': 20} for c in (1, 2, 3) for b in (1, 2)]
+    out += [{'fn': 'e2e_s', 'pin': {'cpu': c, 'bw': 1}, 'cond_timeout': 240, 'path_timeout': 20} for c in (2.5, 1.5)]      # fractional speeds
     out += [{'fn': 'sched', 'pin': {'cpus': [3, 1], 'bws': [2, 1]}, 'cond_timeout': 240}, {'fn': 'sched', 'pin': {'cpus': [4, 1], 'bws': [1, 1], 'slow_first': True}, 'cond_timeout': 240}]
     out.append({'fn': 'sched', 'pin': {'cpus': [3, 1], 'bws': [2, 1]}, 'cond_timeout': 30, 'twin': True})
     return out + [{'fn': 'e2e_s', 'pin': {'cpu': 3, 'bw': 1}, 'cond_timeout': 30, 'twin': True}]
